@@ -235,4 +235,92 @@ theorem payload_truncation (b : Bytes) (l : HdrLayout) (n : Nat)
 example : (RawPacket.requiredSize
     [0,0,0,1, 17,9,0,200, 0,0,0,0,  0,1,0,0,0,0,0,1, 0,1,0,0,0,0,0,2, 10,0,0,1, 10,0,0,2, 0xff, 0xee]).toOption = some 38 := by decide
 
+
+/-! ## 5. every accessor and mutator touches only bytes of the view -/
+
+open ScionVerif.Access in
+/-- **access_in_bounds**: if a view of kind `k` is accepted from `b` with size `n`, then every byte interval
+`[lo, hi)` read or written by any pub accessor / mutator of that view (`Model/Access.lean`: field getters and
+setters, host addresses, `path()`, info/hop fields by index and as slices, `header()`, `payload()`, `udp()`,
+`scmp()`, message data, …; sub-view accessors included, all evaluated on the view's own bytes `b.take n`) is
+well-formed and ends inside the view: `lo ≤ hi ≤ n` (and `n ≤ b.length` by `size_le_input`). -/
+theorem access_in_bounds (k : ViewKind) (b : Bytes) (n : Nat) (h : requiredSize k b = .ok n) :
+    ∀ a ∈ accessors k (b.take n), ∀ r ∈ a.ranges, r.1 ≤ r.2 ∧ r.2 ≤ n := by
+  have hle := size_le_input k b n h
+  have hv := reparse_idem k b n h
+  have hlen : (b.take n).length = n := by simp; omega
+  have := access_in_bounds_view k (b.take n) (by rw [hlen]; exact hv)
+  rw [hlen] at this
+  exact this
+
+
+/-! ## 6. safe mutators keep the size; mutator sequences of any length stay in bounds -/
+
+open ScionVerif.Access in
+/-- **mutator_preserves_size**: a write `r := x` on an accepted view that lies inside the view and shares no
+bit with a size-determining field (`protectedRanges`: version, header length, payload length, path type,
+address type nibbles, the three segment lengths, UDP length / SCMP type of a typed packet) leaves
+`has_required_size` of the view unchanged – for every view kind, every accepted input, every value. -/
+theorem mutator_preserves_size (k : ViewKind) (b : Bytes) (n : Nat) (h : requiredSize k b = .ok n)
+    (r : BitRange) (x : Nat) (hn : sizeNeutral k (b.take n) r) :
+    requiredSize k (writeBits (b.take n) r x) = .ok n := by
+  have hle := size_le_input k b n h
+  have hlen : (b.take n).length = n := by simp; omega
+  have := write_preserves_size_view k (b.take n) r x (by rw [hlen]; exact reparse_idem k b n h) hn
+  rwa [hlen] at this
+
+open ScionVerif.Access in
+/-- **safe_setters_preserve_size**: every *safe* setter of the crate (`safeSetterRanges`: `set_traffic_class`,
+`set_flow_id`, `set_next_header`, `set_{src,dst}_{isd,as}`, `set_curr_{info,hop}_field`, every setter of every
+info / hop field, one-hop fields, UDP ports / checksum, SCMP code / checksum, and every byte written through
+a mutable slice handed out by a safe accessor – `payload_mut`, `data_mut`, `offending_packet_mut`, unsupported
+path bytes) is such a write; hence it keeps the size.  The setters of the protected fields are exactly the
+crate's `unsafe fn`s (`gen_unsafe_field_write!`) plus `set_version` and `UdpDatagramView::set_length`, which
+are treated separately (`set_version_*`, harness probe). -/
+theorem safe_setters_preserve_size (k : ViewKind) (b : Bytes) (n : Nat) (h : requiredSize k b = .ok n)
+    (r : BitRange) (hr : r ∈ safeSetterRanges k (b.take n)) (r' : BitRange) (hsub : BitRange.sub r' r) (x : Nat) :
+    requiredSize k (writeBits (b.take n) r' x) = .ok n := by
+  have hle := size_le_input k b n h
+  have hlen : (b.take n).length = n := by simp; omega
+  have hv : requiredSize k (b.take n) = .ok (b.take n).length := by rw [hlen]; exact reparse_idem k b n h
+  exact mutator_preserves_size k b n h r' x (safe_setters_neutral k (b.take n) hv r hr r' hsub)
+
+open ScionVerif.Access in
+/-- **mutator_sequence_in_bounds**: after *any* finite sequence of size-neutral writes (each judged on the
+bytes it is applied to) the view still has the size validated at construction and every accessor of the
+mutated view is still inside the view.  Induction over the sequence – no bound on its length. -/
+theorem mutator_sequence_in_bounds (k : ViewKind) (b : Bytes) (n : Nat) (h : requiredSize k b = .ok n)
+    (ws : List (BitRange × Nat)) (hn : NeutralSeq k (b.take n) ws) :
+    requiredSize k (applyWrites (b.take n) ws) = .ok n ∧
+    ∀ a ∈ accessors k (applyWrites (b.take n) ws), ∀ r ∈ a.ranges, r.1 ≤ r.2 ∧ r.2 ≤ n := by
+  have hle := size_le_input k b n h
+  have hlen : (b.take n).length = n := by simp; omega
+  have hv : requiredSize k (b.take n) = .ok (b.take n).length := by rw [hlen]; exact reparse_idem k b n h
+  obtain ⟨h1, h2⟩ := writes_preserve_size_view k (b.take n) ws hv hn
+  rw [hlen] at h1 h2
+  refine ⟨h2, ?_⟩
+  have := access_in_bounds_view k (applyWrites (b.take n) ws) (by rw [h1]; exact h2)
+  rwa [h1] at this
+
+/-- **reverse_preserves_size**: `StandardPathView::try_reverse` permutes the three segment lengths
+(`(a,b,0) ↦ (b,a,0)`, `(a,b,c) ↦ (c,b,a)`) and rewrites bytes in place; any in-place rewrite whose segment
+lengths are such a permutation of the accepted ones keeps the size.  (That `try_reverse` and `advance_*` are
+in-place rewrites of that shape is their byte-level model in C11/C12 and is observed by the harness on
+every mutator sequence.) -/
+theorem reverse_preserves_size (v v' : Bytes) (h : StdPath.requiredSize v = .ok v.length)
+    (hlen : v'.length = v.length)
+    (hperm : segFields v' 0 = segFields v 0 ∨
+             segFields v' 0 = ((segFields v 0).2.1, (segFields v 0).1, (segFields v 0).2.2) ∨
+             segFields v' 0 = ((segFields v 0).2.2, (segFields v 0).2.1, (segFields v 0).1)) :
+    StdPath.requiredSize v' = .ok v'.length := by
+  obtain ⟨h1, h2, h3⟩ := (StdPath.requiredSize_ok_iff v _).1 h
+  refine (StdPath.requiredSize_ok_iff v' _).2 ⟨by omega, ?_, Nat.le_refl _⟩
+  rw [hlen]
+  rcases hperm with e | e | e <;> rw [e]
+  · exact h2
+  · show v.length = _ + stdDataSize (segFields v 0).2.1 (segFields v 0).1 (segFields v 0).2.2
+    rw [Access.stdDataSize_swap01]; exact h2
+  · show v.length = _ + stdDataSize (segFields v 0).2.2 (segFields v 0).2.1 (segFields v 0).1
+    rw [Access.stdDataSize_swap02]; exact h2
+
 end ScionVerif.Layout
